@@ -349,6 +349,7 @@ type caseRun struct {
 	accts  []string
 	subj   string
 	sig    []transaction.Signer
+	keyed  bool         // key accounts are asked for by public key instead of script hash
 	want   map[int]bool // context indices to observe
 	obs    map[int][]int
 	runs   int
@@ -443,14 +444,14 @@ func (cr *caseRun) observe() {
 		if ci, ok := u.index[pid]; ok && cr.want[ci] {
 			chain := u.ctx[ci].Chain
 			for k, a := range cr.accts {
-				checks[i] = append(checks[i], check{w.hashOf(resolveAcct(a, chain, cr.subj)), 0})
+				checks[i] = append(checks[i], check{w.acct(resolveAcct(a, chain, cr.subj), cr.keyed), 0})
 				slots[i] = append(slots[i], slot{ci, k})
 			}
 		}
 		if ci, ok := u.index[pid+".g"]; ok && cr.want[ci] {
 			chain := u.ctx[ci].Chain
 			for k, a := range cr.accts {
-				checks[i] = append(checks[i], check{w.hashOf(resolveAcct(a, chain, cr.subj)), 1})
+				checks[i] = append(checks[i], check{w.acct(resolveAcct(a, chain, cr.subj), false), 1})
 				slots[i] = append(slots[i], slot{ci, k})
 			}
 		}
@@ -638,7 +639,7 @@ func TestDriver(t *testing.T) {
 					for _, s := range dec {
 						o.signers = append(o.signers, w.projSigner(s))
 					}
-					cr := &caseRun{w: w, u: deep, accts: b.Accts, subj: c.Subj, sig: dec, want: map[int]bool{}, obs: map[int][]int{}}
+					cr := &caseRun{w: w, u: deep, accts: b.Accts, subj: c.Subj, sig: dec, keyed: j.c%2 == 1, want: map[int]bool{}, obs: map[int][]int{}}
 					if c.Deep || b.Family == "random" {
 						for i := range deep.ctx {
 							cr.want[i] = true
@@ -767,7 +768,10 @@ func TestDriver(t *testing.T) {
 		if obsList == nil {
 			obsList = [][]int{}
 		}
-		tr.Emit(map[string]any{"event": "cfg", "family": b.Family, "subj": c.Subj, "signers": o.signers, "accts": b.Accts, "obs": obsList})
+		tr.Emit(map[string]any{"event": "cfg", "family": b.Family, "subj": c.Subj, "signers": o.signers, "accts": b.Accts, "obs": obsList, "keyed": cr.keyed})
+		if cr.keyed {
+			res.Inc("cases_asked_by_public_key", 1)
+		}
 		res.Traces++
 		if res.Traces%400 == 1 && len(cis) > 0 {
 			ci := cis[len(cis)/2]
